@@ -476,5 +476,8 @@ func (s SyscallWithConditions) Assemble(p *Program, action Label) {
 		}
 		p.SetLabel(noMatch)
 	}
+	// The argument checks overwrote the accumulator. Restore the syscall number
+	// for the comparisons that follow.
+	p.LdNr()
 	p.SetLabel(nextSyscall)
 }
